@@ -297,6 +297,12 @@ func cmdReplay(t *testing.T, args []string) int {
 		return 2
 	}
 	res := execPlan(c, &Env{T: t, KeepLog: true}, rf.Plan)
+	if f.str("log", "") != "" {
+		for i, l := range res.Log {
+			fmt.Printf("%4d %s\n", i+1, l)
+		}
+	}
+	res.Log = nil
 	if f.str("json", "") != "" {
 		b, _ := json.Marshal(res)
 		fmt.Println("RESULT " + string(b))
@@ -467,6 +473,8 @@ type agg struct {
 	panics     []string
 	inconcl    int
 	hung       int
+	crashes    map[string]int
+	crashSeed  map[string]uint64
 }
 
 type found struct {
@@ -538,7 +546,7 @@ func cmdCheck(args []string) int {
 	}
 
 	a := &agg{fps: map[string]struct{}{}, faults: map[string]int{}, probes: map[string]int{}, states: map[string]struct{}{},
-		logs: map[uint64]string{}, violations: map[string]*found{}, knownSeen: map[string]int{}}
+		logs: map[uint64]string{}, violations: map[string]*found{}, knownSeen: map[string]int{}, crashes: map[string]int{}, crashSeed: map[string]uint64{}}
 
 	// chunks of seeds
 	type chunk struct {
@@ -614,6 +622,9 @@ func cmdCheck(args []string) int {
 	wall := time.Since(t0).Seconds()
 	writeEvidence(c, tier, base, a, wall, newViol)
 	fmt.Printf("property=%s tier=%s evaluations=%d distinct=%d faults=%v wall=%.1fs\n", c.ID, tier, a.evals, len(a.fps), a.faults, wall)
+	for fn, n := range a.crashes {
+		fmt.Printf("INCIDENTAL-CRASH: the code under test panicked in its own goroutine and killed the process (%d runs, first seed %d) at %s\n", n, a.crashSeed[fn], fn)
+	}
 	if len(a.panics) > 0 && !c.PanicIsViolation {
 		for _, p := range a.panics[:min(3, len(a.panics))] {
 			fmt.Fprintf(os.Stderr, "HARNESS PANIC: %s\n", p)
@@ -713,12 +724,70 @@ func runWorker(c *Check, argv []string, tier string, start uint64, count, wallS,
 			}
 			return
 		}
-		tail := errb.String()
+		full := errb.String()
+		if fn, ok := foreignCrash(full); ok {
+			// the code under test panicked in a goroutine of its own: the
+			// process died, which no in-process recover can catch. Recorded as an
+			// incidental crash (or a violation when PanicIsViolation), the rest
+			// of the chunk continues in a fresh process.
+			seed := start + uint64(got)
+			a.mu.Lock()
+			a.evals++
+			a.crashes[fn]++
+			if a.crashSeed[fn] == 0 {
+				a.crashSeed[fn] = seed
+			}
+			a.mu.Unlock()
+			if c.PanicIsViolation {
+				a.add(c, &Result{Seed: seed, Panic: "process crash in " + fn})
+			}
+			if got+1 < count {
+				runWorker(c, argv, tier, seed+1, count-got-1, wallS, hangS, a, trouble)
+			}
+			return
+		}
+		tail := full
 		if len(tail) > 2000 {
 			tail = tail[len(tail)-2000:]
 		}
 		trouble <- fmt.Sprintf("worker for seeds %d..%d exited early (%v) after %d results: %s", start, start+uint64(count)-1, err, got, tail)
 	}
+}
+
+// foreignCrash recognises a process death caused by a panic in a goroutine
+// created by the code under test (no harness frame on the panicking stack)
+// and returns the innermost function of the code under test.
+func foreignCrash(stderr string) (string, bool) {
+	i := strings.Index(stderr, "panic: ")
+	if i < 0 {
+		return "", false
+	}
+	st := stderr[i:]
+	// first goroutine block after the panic line is the panicking one
+	j := strings.Index(st, "goroutine ")
+	if j < 0 {
+		return "", false
+	}
+	blk := st[j:]
+	if k := strings.Index(blk, "\n\n"); k > 0 {
+		blk = blk[:k]
+	}
+	if strings.Contains(blk, "verif/") || !strings.Contains(blk, "created by 0chain.net/") {
+		return "", false
+	}
+	for _, ln := range strings.Split(blk, "\n") {
+		if strings.HasPrefix(ln, "0chain.net/") {
+			fn := ln
+			if p := strings.IndexByte(fn, '('); p > 0 {
+				// keep receiver-qualified names intact: cut at the argument list
+				if q := strings.LastIndex(fn, "("); q > 0 {
+					fn = fn[:q]
+				}
+			}
+			return fn, true
+		}
+	}
+	return "", false
 }
 
 type limitedWriter struct {
